@@ -27,10 +27,11 @@ LIB = {
     "Opt": "class Opt(No, So(int)) {\n  function of(x: int): Opt = if x % 2 == 0 { Opt.So(x) } else { Opt.No() }\n}",
     "Fig": "class Fig(Ca(Box), Sq(Box), Dt) {\n  function of(x: int, y: int): Fig = if x % 3 == 0 { Fig.Ca(Box.init(x, y)) } else { if x % 3 == 1 { Fig.Sq(Box.init(y, x)) } else { Fig.Dt() } }\n}",
     "Wr": "class Wr(Wa(Sh), Wb(int)) {\n  function of(x: int): Wr = if x % 4 == 0 { Wr.Wb(x) } else { if x % 4 == 1 { Wr.Wa(Sh.Ci(x)) } else { if x % 4 == 2 { Wr.Wa(Sh.Re(x, 1)) } else { Wr.Wa(Sh.Em()) } } }\n}",
+    "Wr2": "class Wr2(Xa(Sh), Xb(Sh)) {\n  function of(x: int): Wr2 = if x % 2 == 0 { Wr2.Xa(Sh.Ci(x)) } else { Wr2.Xb(Sh.Re(x, 2)) }\n}",
     "Maybe": "class Maybe<T>(Nothing, Just(T)) {\n  method getOr(d: T): T = match this { Nothing -> d, Just(v) -> v }\n}",
     "Cell": "class Cell<T>(val v: T) {\n  method <R> map(f: (T) -> R): Cell<R> = Cell.init(f(this.v))\n  method get(): T = this.v\n}",
 }
-LIB_ORDER = ["Box", "Sh", "Opt", "Fig", "Wr", "Maybe", "Cell"]
+LIB_ORDER = ["Box", "Sh", "Opt", "Fig", "Wr", "Wr2", "Maybe", "Cell"]
 
 HELPERS = [
     "  function <T> id(x: T): T = x",
@@ -181,7 +182,7 @@ class Gen:
     def or_match(self, env, d):
         """match with an or-pattern case; returns the expression"""
         r = self.rng
-        kind = r.below(6) if self.rich else 0
+        kind = r.below(8) if self.rich else 0
         if kind == 0:       # variants of Sh
             self.forms.add("or-pattern")
             x = self.fresh()
@@ -225,6 +226,18 @@ class Gen:
             return ("match", ("tuple", [self.fig_expr(env, d), self.int_expr(env, d)]),
                     [(("por", r.shuffle([a1, a2])), self.int_expr(env + names + [y], d)),
                      (("ptuple", [("pvar", "Dt", []), ("pwild",)]), self.int_expr(env, d))])
+        if kind in (6, 7):  # or-patterns nested in EVERY alternative of an or-pattern (depth 2)
+            x = self.fresh()
+            alts = [("pvar", "Xa", [("por", r.shuffle(self.sh_alts(x)))]),
+                    ("pvar", "Xb", [("por", r.shuffle(self.sh_alts(x)))])]
+            alts = r.shuffle(alts)
+            scrut = ("raw2", "Wr2.of(", [self.int_expr(env, d)], ")")
+            if kind == 6:
+                self.forms.add("or-pattern-nested-in-all-alternatives")
+                rest = ("por", [("pvar", "Xa", [("pvar", "Em", [])]), ("pvar", "Xb", [("pvar", "Em", [])])])
+                return ("match", scrut, [(("por", alts), self.int_expr(env + [x], d)), (rest, self.int_expr(env, d))])
+            self.forms.add("if-let-nested-or-pattern")
+            return ("iflet", ("por", alts), scrut, self.int_expr(env + [x], d), self.int_expr(env, d))
         # kind 5: variant + struct mixed: (Sh, Box)
         self.forms.add("or-pattern-mixed")
         x = self.fresh()
@@ -607,7 +620,7 @@ def render(p):
         moved = [c for c in p["classes"] if c in p["split"]]
         kept = [c for c in p["classes"] if c not in p["split"]]
         # a moved class may mention another moved / kept library class: Fig -> Box, Wr -> Sh
-        deps = {"Fig": ["Box"], "Wr": ["Sh"]}
+        deps = {"Fig": ["Box"], "Wr": ["Sh"], "Wr2": ["Sh"]}
         need = sorted({d for c in moved for d in deps.get(c, []) if d not in moved})
         if need:      # keep it simple: dependencies move together
             moved += need
